@@ -86,6 +86,15 @@ class Script:
             }
             ed = kwargs.get("event_data")
             self._cur_trigger = getattr(ed, "trigger_data", None)
+            if ed is not None:
+                info["ed"] = (
+                    getattr(getattr(ed, "state", None), "id", None),
+                    getattr(getattr(ed, "source", None), "id", None),
+                    getattr(getattr(ed, "target", None), "id", None),
+                    None if getattr(ed, "event", None) is None else str.__str__(ed.event),
+                    getattr(ed, "machine", None) is kwargs.get("machine"),
+                    getattr(ed, "transition", None) is kwargs.get("transition"),
+                )
             if self._first_trigger is None and info["event"] != "__initial__":
                 self._first_trigger = self._cur_trigger
             machine = self.sm if self.sm is not None else kwargs.get("machine")
@@ -399,6 +408,11 @@ class Acceptor:
             raise Reject("wrong-state-injected", f"{brief(rec)}: `state` should be {view} in {phase}")
         if i["source"] != src or i["target"] != tgt:
             raise Reject("wrong-source-target-injected", f"{brief(rec)}: expected source={src} target={tgt}")
+        ed = i.get("ed")
+        if ed is not None:
+            ok_state = ed[0] == i["state"] or (ev == "__initial__" and ed[0] in (view, ""))
+            if not ok_state or ed[1] != src or ed[2] != tgt or ed[3] != ev or not ed[4] or not ed[5]:
+                raise Reject("event_data-disagrees-with-injected-values", f"{brief(rec)}: event_data(state, source, target, event, same machine, same transition)={ed}")
         if self.check_cur and (self.rtc or not self.nested_happened) and i["cur"] != view:
             raise Reject("wrong-current-state-seen", f"{brief(rec)}: sm.current_state should be {view} in {phase}")
         if "depth" in i:
